@@ -579,6 +579,9 @@ class A64(Machine):
         if not m:
             raise EmuError("bad memory operand " + s)
         base, _ = self.get(m.group(1))
+        if m.group(1).lower() == "sp" and base % 16 and not any("stack pointer is not 16-byte aligned" in v for v in self.violations):
+            # the architecture checks this in hardware wherever SP alignment checking is on (Linux, bare-metal runtimes)
+            self.violations.append("memory access through sp while the stack pointer is not 16-byte aligned (sp=0x%x)" % base)
         return (base + (int(m.group(2), 0) if m.group(2) else 0)) & ((1 << 64) - 1)
 
     def step(self, mn, o, here):
